@@ -192,7 +192,7 @@ def run(ctx):
                       "args=%s exc=%s o=%s" % (ev["args"], ev["exc"], json.dumps({k: v for k, v in ev["o"].items() if k.endswith("hex") or k in ("passes", "short")})[:400]),
                       case={"kind": ev["k"], "args": ev["args"], "tag": ev["tag"]})
     ctx.extra["max_passes_of_vincdir_utm_loop_observed"] = d.max_passes
-    ctx.extra["binding_selftest"] = selftest(evs)
+    ctx.selftest(selftest, evs)
     for e in evs:
         ctx.nontrivial((e["k"], json.dumps(e["args"])))
         ctx.actions[e["k"]] = ctx.actions.get(e["k"], 0) + 1
